@@ -13,7 +13,9 @@ from collections import Counter
 from . import common as C
 
 PROP = "C16"
-MODEL = "Mapping"
+MODEL = "Mapping Interp DepsCases"
+CHECK_FN = "check_case16"
+SKIPPED_FN = "case16_unsupported"
 SHARD = 250
 CASE_TIMEOUT = 60
 RULE = ("cases: (i) recipe = reference graph over 2-7 tables (acyclic / self loops / 2- and 3-cycles / random; forward, "
@@ -328,6 +330,25 @@ def all_edge_sets(names, self_loops):
         yield [pairs[i] for i in range(len(pairs)) if mask >> i & 1]
 
 
+DW = dict(ref=0.5, fwd=0.45, nick=0.5, nested=0.3, friend=0.5, dotted=0.25, once=0.25, hidden_table=0.12,
+          hidden_field=0.15, formula=0.25, randref=0.12, zero_count=0.1, var_stmt=0.2)
+
+
+def gen_interp_deps(rng):
+    """SF-core recipes (sfcore generator: references of every kind between 2-4 tables, hidden tables and
+    fields, just_once, variables holding rows) over 1-3 iterations, some cut into continuation chains;
+    observed: Globals.intertable_dependencies as written to the continuation file after the last run"""
+    from . import sfcore as S
+    from .c04 import row_valued_in_once
+    for _ in range(40):
+        r, feats = S.gen_recipe(rng, DW)
+        if not row_valued_in_once(r):      # K1/K2 (C04/C05): such a run cannot write its continuation file
+            break
+    k = rng.choice([1, 2, 2, 3])
+    ks = S.random_cuts(rng, k) if (k >= 2 and rng.random() < 0.5) else [k]
+    return {"kind": "interp_deps", "recipe": r, "ks": ks, "features": feats}
+
+
 def generate(rng, tier):
     cases = []
     quick = tier == "quick"
@@ -373,6 +394,9 @@ def generate(rng, tier):
     # ---- (i) recipes
     for _ in range(450 if quick else 12000):
         cases.append(gen_recipe(rng))
+    # ---- (iv) the recorded dependencies themselves, against the SF-core interpreter model
+    for _ in range(220 if quick else 5000):
+        cases.append(gen_interp_deps(rng))
     return cases
 
 
@@ -585,8 +609,27 @@ def one_run(text, decl_path, reps, continuation=None, want_cont=False):
     return res
 
 
+def _run_interp_deps(case):
+    from . import sfcore as S
+    import yaml
+    runs, cont, off = [], None, 0
+    for k in case["ks"]:
+        o = S.run_recipe(case["recipe"], reps=k, continuation=cont, want_continuation=True, draw_offset=off)
+        off += len(o.get("draws", []))
+        cont = o.get("cont")
+        runs.append({kk: vv for kk, vv in o.items() if kk != "cont"})
+        if "ok" not in o:
+            return {"runs": runs}
+    st = yaml.safe_load(cont)
+    deps = [[d.get("table_name_from"), d.get("table_name_to"), d.get("field_name")]
+            for d in (st.get("intertable_dependencies") or [])]
+    return {"runs": runs, "deps": deps}
+
+
 def run_impl(case):
     kind = case["kind"]
+    if kind == "interp_deps":
+        return _run_interp_deps(case)
     if kind == "free":
         try:
             from snowfakery.generate_mapping_from_recipe import _table_is_free
@@ -723,7 +766,29 @@ def _run_coq(run, start, continued):
 
 
 def coq_case(case, obs):
+    t = _coq_case(case, obs)
+    if t is None:
+        return None
+    return f"CInterpDeps ({t})" if case["kind"] == "interp_deps" else f"CMap ({t})"
+
+
+def _interp_deps_coq(case, obs):
+    from . import sfcore as S
+    runs = obs["runs"]
+    if "deps" in obs:
+        if any(not isinstance(x, str) for d in obs["deps"] for x in d):
+            return None
+        exp = "(Ok " + C.clist(f"({C.cstr(a)}, {C.cstr(b)}, {C.cstr(f)})" for a, b, f in obs["deps"]) + ")"
+    else:
+        exp = f"(Err {C.cerr(runs[-1]['err'])})"
+    draws = [d for r in runs for d in r.get("draws", [])]
+    return f"CDepsRun {S.recipe_coq(case['recipe'], draws)} {C.clist(C.cnat(k) for k in case['ks'])} {exp}"
+
+
+def _coq_case(case, obs):
     kind = case["kind"]
+    if kind == "interp_deps":
+        return _interp_deps_coq(case, obs)
     if not _ascii_ok(case) or obs.get("skip"):
         return None
     if kind == "free":
@@ -858,8 +923,40 @@ def check_mapping_rules(recipe, mapping, refs, label):
     return None
 
 
+def _interp_deps_oracle(case, obs):
+    """every reference cell of every written row of a visible table has its (table, target, field)
+    triple among the recorded dependencies; every recorded triple between visible tables over a
+    visible field is backed by such a cell of some written row"""
+    runs = obs["runs"]
+    for r in runs:
+        if "err" in r:
+            if r["err"] != "DGE":
+                return f"internal-error: {r['err']}: {r.get('msg', '')[:120]}"
+            return None
+    if "deps" not in obs:
+        return None
+    deps = {tuple(d) for d in obs["deps"]}
+    seen = set()
+    for r in runs:
+        for t, fs in r["ok"]:
+            for f, v in fs:
+                if v[0] == "ref":
+                    seen.add((t, v[1], f))
+    missing = sorted(seen - deps)
+    if missing:
+        return f"deps-missing: written reference cells {missing[:4]} have no recorded dependency (recorded: {sorted(deps)[:8]})"
+    # recorded but never written: legitimate only for hidden tables / fields (their rows / cells never
+    # reach the output stream) and for literal-less cases - the model comparison decides those exactly
+    extra = sorted(d for d in deps - seen if not d[0].startswith("__") and not d[2].startswith("__"))
+    if extra:
+        return f"deps-unbacked: recorded dependencies {extra[:4]} are not backed by any reference cell of a written row"
+    return None
+
+
 def oracle(case, obs):
     kind = case["kind"]
+    if kind == "interp_deps":
+        return _interp_deps_oracle(case, obs)
     if obs.get("skip"):
         return None
     if kind == "free":
@@ -950,6 +1047,8 @@ def violation_class(case, obs, msg):
 
 # =============================================================================== evidence
 def nontrivial(case, obs):
+    if case["kind"] == "interp_deps":
+        return bool(obs.get("deps"))
     if case["kind"] == "recipe":
         m = obs.get("fresh2", {}).get("mapping")
         return bool(m) and any(s["lookups"] for _, s in m)
@@ -963,8 +1062,17 @@ def stats(cases, obss):
     feats = Counter(f for c in cases for f in c.get("features", []))
     outcomes, nsteps, nlook, afters, ntables = Counter(), Counter(), Counter(), Counter(), Counter()
     sortc = Counter()
+    idp = Counter()
     for c, o in zip(cases, obss):
         if not isinstance(o, dict):
+            continue
+        if c["kind"] == "interp_deps":
+            idp["history:" + "+".join(map(str, c["ks"]))] += 1
+            idp["outcome:" + ("ok" if "deps" in o else (o.get("runs") or [{}])[-1].get("err", "?"))] += 1
+            if "deps" in o:
+                idp["recorded_dependencies:%d" % min(len(o["deps"]), 6)] += 1
+                if any(d[0].startswith("__") or d[1].startswith("__") or d[2].startswith("__") for d in o["deps"]):
+                    idp["with_hidden_table_or_field"] += 1
             continue
         if c["kind"] == "recipe" and "fresh2" in o:
             f2 = o["fresh2"]
@@ -983,7 +1091,7 @@ def stats(cases, obss):
                 sortc["order_with_duplicates"] += 1
             if "err" in o:
                 sortc["err:" + o["err"]] += 1
-    return {"kinds": dict(kinds), "recipe_features": dict(feats), "recipe_outcomes": dict(outcomes),
+    return {"kinds": dict(kinds), "interp_deps_stream": dict(idp), "recipe_features": dict(feats), "recipe_outcomes": dict(outcomes),
             "steps_per_mapping": {str(k): v for k, v in sorted(nsteps.items())},
             "lookups_per_mapping": {str(k): v for k, v in sorted(nlook.items())},
             "after_directives": dict(afters), "visible_tables": {str(k): v for k, v in sorted(ntables.items())},
@@ -991,6 +1099,13 @@ def stats(cases, obss):
 
 
 def shrink(case):
+    if case["kind"] == "interp_deps":
+        from . import sfcore as S
+        if len(case["ks"]) > 1:
+            yield dict(case, ks=[sum(case["ks"])])
+        for c2 in S.shrink_recipe_case({"recipe": case["recipe"], "reps": 1}):
+            yield dict(case, recipe=c2["recipe"])
+        return
     if case["kind"] == "recipe":
         r = case["recipe"]
         st = r["stmts"]
